@@ -1,6 +1,1952 @@
-//! C04 — stub (monitor not built yet).
-use crate::core::Ctx;
+//! C04 — decoders never panic or run away on arbitrary input.
+//!
+//! Workload: structure-aware mutation (c04_mut.rs) of every captured object
+//! under the worktree's `test-data/`, of objects built with the library's own
+//! builders under the key pool, and of sub-structures discovered inside those
+//! (resource extensions, names, times, serials, keys, CRL bodies, manifest
+//! contents), plus raw byte mutation, truncation at every TLV boundary,
+//! deep nesting (in a child process) and random strings. Every input goes
+//! through the entry point(s) it belongs to (strict and relaxed) and, with
+//! some probability, through a foreign one. Mutants of pool-signed seeds are
+//! partly re-signed so that hostile content passes the signature checks of
+//! validate*/process.
+//!
+//! Oracle (per evaluation; `evaluate` in c04_eval.rs does decode + accessor
+//! sweep): no panic (catch_unwind, signature = panic file:line), peak heap
+//! inside the allocator window <= 64 KiB + 64*len, thread CPU time
+//! <= 0.2 s + 1 us*len (native stage; three runs, each next to a steady clock
+//! reference), and the process survives: a breadcrumb (entry point + input) is
+//! kept current for the driver, a watchdog on the worker's CPU clock aborts a
+//! runaway evaluation, deep nesting and replays of fatal cases run in a child
+//! process on a 2 MiB thread stack.
+//!
+//! Literal cases (`vcheck C04 --case f`): `{"ep": name, "hex": bytes}`
+//! (optionally `"isolate": true` to run it in a child), a libFuzzer artifact
+//! `{"fuzz_target": "repo|ca|resources|text", "hex": bytes}`, or
+//! `{"write_corpus": dir}` which writes the seed corpus of the fuzz targets.
+
+// Helper modules of this monitor. They are declared here (not in lib.rs) so
+// that the shared lib.rs needs no change; the fuzz targets reach the
+// evaluation function as `rpki_verif::c04::c04_eval`.
+#[path = "c04_eval.rs"]
+pub mod c04_eval;
+#[path = "c04_mut.rs"]
+pub mod c04_mut;
+
+use self::c04_eval::{cpu_budget_ns, evaluate, heap_budget, Ep, Fixed, Opts, Outcome, ALL_EPS};
+use self::c04_mut::{self as m, Pools, T};
+use crate::alloc::{thread_cpu_ns, window_peak, window_start};
+use crate::core::{catch, fnv64, Ctx, Rng, Stage, Tier};
+use serde_json::{json, Value};
+use std::collections::HashSet;
+use std::path::PathBuf;
+use std::str::FromStr;
+
+//------------ small helpers -------------------------------------------------
+
+fn hex(data: &[u8]) -> String {
+    const H: &[u8; 16] = b"0123456789abcdef";
+    let mut s = Vec::with_capacity(data.len() * 2);
+    for b in data {
+        s.push(H[(b >> 4) as usize]);
+        s.push(H[(b & 15) as usize]);
+    }
+    String::from_utf8(s).unwrap()
+}
+
+fn unhex(s: &str) -> Vec<u8> {
+    let b = s.as_bytes();
+    let v = |c: u8| match c {
+        b'0'..=b'9' => c - b'0',
+        b'a'..=b'f' => c - b'a' + 10,
+        b'A'..=b'F' => c - b'A' + 10,
+        _ => 0,
+    };
+    (0..b.len() / 2).map(|i| (v(b[2 * i]) << 4) | v(b[2 * i + 1])).collect()
+}
+
+thread_local! {
+    static PANIC: std::cell::RefCell<Option<(String, Option<String>)>> = const { std::cell::RefCell::new(None) };
+}
+
+/// Own panic hook: remembers `file:line: message`; when the location is
+/// inside the Rust standard library (arithmetic in iterator adaptors, slice
+/// indexing helpers) it also resolves the innermost rpki / bcder frame from a
+/// backtrace, because a std line number is no stable name for a defect.
+fn install_hook() {
+    std::panic::set_hook(Box::new(|info| {
+        let loc = info.location().map(|l| format!("{}:{}", l.file(), l.line())).unwrap_or_else(|| "<unknown>".into());
+        let msg = if let Some(s) = info.payload().downcast_ref::<&str>() {
+            (*s).to_string()
+        } else if let Some(s) = info.payload().downcast_ref::<String>() {
+            s.clone()
+        } else {
+            "<non-string payload>".into()
+        };
+        let mut via = None;
+        if loc.starts_with("/rustc/") || loc.contains("/library/") {
+            let bt = std::backtrace::Backtrace::force_capture().to_string();
+            if std::env::var_os("C04_DEBUG_BT").is_some() {
+                eprintln!("{}", bt);
+            }
+            let mut func = String::new();
+            let mut harness_fn: Option<String> = None;
+            for line in bt.lines() {
+                let t = line.trim();
+                if let Some(at) = t.strip_prefix("at ") {
+                    let is_lib = (at.contains("/src/") && !at.starts_with("/rustc/") && !at.starts_with("./src/") && !at.contains("/harness/src/") && !at.contains("/library/"))
+                        && (at.contains("/repo/src/") || at.contains("bcder-") || at.contains("/rpki"));
+                    if is_lib {
+                        let mut parts = at.rsplitn(3, ':');
+                        let _col = parts.next();
+                        let line_no = parts.next().unwrap_or("");
+                        let file = parts.next().unwrap_or(at);
+                        via = Some(format!("{}:{} ({})", file, line_no, func));
+                        break;
+                    }
+                } else if let Some(i) = t.find(": ") {
+                    func = t[i + 2..].to_string();
+                    if func.starts_with("rpki::") || func.starts_with("<rpki::") || func.starts_with("bcder::") || func.starts_with("<bcder::") {
+                        // library frame without line info: the function path names the site
+                        via = Some(format!("fn {}", func.trim_start_matches('<').split("::{{").next().unwrap_or(&func)));
+                        break;
+                    }
+                    if harness_fn.is_none() && func.starts_with("rpki_verif::c04_eval::") {
+                        harness_fn = Some(func["rpki_verif::c04_eval::".len()..].split("::").next().unwrap_or("").to_string());
+                    }
+                    if func.starts_with("rpki_verif::c04::") && !func.contains("install_hook") {
+                        break;
+                    }
+                }
+            }
+            if via.is_none() {
+                // the library frames were inlined into the harness's sweep function
+                let slug: String = msg.chars().map(|c| if c.is_ascii_alphanumeric() { c } else { '_' }).take(40).collect();
+                via = Some(format!("inlined-into {} [{}]", harness_fn.unwrap_or_else(|| "sweep".into()), slug));
+            }
+        }
+        PANIC.with(|p| *p.borrow_mut() = Some((format!("{}: {}", loc, msg), via)));
+    }));
+}
+
+/// Runs `f`; a panic becomes `Err((text, innermost library frame if the panic site is in std))`.
+fn catch2<R>(f: impl FnOnce() -> R) -> Result<R, (String, Option<String>)> {
+    PANIC.with(|p| p.borrow_mut().take());
+    match std::panic::catch_unwind(std::panic::AssertUnwindSafe(f)) {
+        Ok(v) => Ok(v),
+        Err(_) => Err(PANIC.with(|p| p.borrow_mut().take()).unwrap_or_else(|| ("<panic without hook>".into(), None))),
+    }
+}
+
+/// `file:line` of a captured panic, keeping the crate directory for
+/// dependencies (`bcder-0.7.7/src/...`) and `src/...` for rpki-rs.
+fn panic_site(text: &str) -> String {
+    let loc = text.split(": ").next().unwrap_or(text);
+    if let Some(i) = loc.find("/registry/src/") {
+        let tail = &loc[i + 14..];
+        if let Some(j) = tail.find('/') {
+            return tail[j + 1..].to_string();
+        }
+    }
+    if loc.contains("/harness/src/") || loc.starts_with("src/c04") || loc.starts_with("src/bin") {
+        return format!("harness:{}", &loc[loc.rfind("/src/").map(|i| i + 1).unwrap_or(0)..]);
+    }
+    match loc.rfind("/src/") {
+        Some(i) => loc[i + 1..].to_string(),
+        None => loc.to_string(),
+    }
+}
+
+/// The rpki-rs checkout the harness is linked against (path dependency).
+fn repo_dir() -> PathBuf {
+    let manifest = concat!(env!("CARGO_MANIFEST_DIR"), "/Cargo.toml");
+    if let Ok(text) = std::fs::read_to_string(manifest) {
+        if let Some(i) = text.find("rpki = { path = \"") {
+            let rest = &text[i + 17..];
+            if let Some(j) = rest.find('"') {
+                return PathBuf::from(&rest[..j]);
+            }
+        }
+    }
+    PathBuf::from("/repo")
+}
+
+fn build_dir() -> PathBuf {
+    let mut p = PathBuf::from(env!("CARGO_MANIFEST_DIR"));
+    p.pop();
+    p.push(".build");
+    p
+}
+
+//------------ Seeds ---------------------------------------------------------
+
+/// Which pool keys signed a library-built seed (so a mutant can be re-signed).
+#[derive(Clone, Copy, Debug, PartialEq, Eq)]
+pub enum Plan {
+    None,
+    /// `SEQUENCE { tbs, alg, signature }` signed by this pool key
+    X509(usize),
+    /// CMS signed object: signed attributes by `ee`, EE certificate (and CRL) by `issuer`
+    Cms { ee: usize, issuer: usize },
+}
+
+impl Plan {
+    fn to_text(self) -> String {
+        match self {
+            Plan::None => "none".into(),
+            Plan::X509(k) => format!("x509:{}", k),
+            Plan::Cms { ee, issuer } => format!("cms:{}:{}", ee, issuer),
+        }
+    }
+
+    fn from_text(s: &str) -> Plan {
+        let p: Vec<&str> = s.split(':').collect();
+        match p.as_slice() {
+            ["x509", k] => Plan::X509(k.parse().unwrap_or(0)),
+            ["cms", e, i] => Plan::Cms { ee: e.parse().unwrap_or(1), issuer: i.parse().unwrap_or(0) },
+            _ => Plan::None,
+        }
+    }
+}
+
+pub struct Seed {
+    pub name: String,
+    pub data: Vec<u8>,
+    pub home: Vec<Ep>,
+    pub forest: Option<Vec<T>>,
+    pub text: bool,
+    pub plan: Plan,
+}
+
+const SIGOBJ: [Ep; 2] = [Ep::SigObjStrict, Ep::SigObjRelaxed];
+
+fn homes_for(path: &str) -> Option<Vec<Ep>> {
+    let file = path.rsplit('/').next().unwrap_or(path);
+    let ext = file.rsplit('.').next().unwrap_or("");
+    let mut v: Vec<Ep> = Vec::new();
+    if path.contains("/rfc6492/") || path.contains("/sigmsg/pdu") {
+        if ext == "der" || ext == "ber" {
+            v.extend([Ep::SigMsgStrict, Ep::SigMsgRelaxed, Ep::ProvCms, Ep::PubCms]);
+        } else {
+            return None;
+        }
+    } else {
+        match ext {
+            "cer" => {
+                if path.contains("/ca/") {
+                    v.extend([Ep::IdCert, Ep::Cert]);
+                } else {
+                    v.extend([Ep::Cert, Ep::IdCert]);
+                }
+            }
+            "crl" => v.push(Ep::Crl),
+            "mft" | "bad-filename" => {
+                v.extend([Ep::MftStrict, Ep::MftRelaxed]);
+                v.extend(SIGOBJ);
+            }
+            "roa" => {
+                v.extend([Ep::RoaStrict, Ep::RoaRelaxed]);
+                v.extend(SIGOBJ);
+            }
+            "asa" => {
+                v.extend([Ep::AspaStrict, Ep::AspaRelaxed]);
+                v.extend(SIGOBJ);
+            }
+            "tal" => v.push(Ep::Tal),
+            "der" => {
+                if file.contains("router-csr") {
+                    v.extend([Ep::BgpsecCsr, Ep::CaCsr]);
+                } else if file.contains("csr") {
+                    v.extend([Ep::CaCsr, Ep::BgpsecCsr]);
+                } else if file.contains("public") {
+                    v.push(Ep::PubKey);
+                } else if file.contains("private") {
+                    return None;
+                }
+                // aspa-content*.der: no public entry point of its own; used
+                // as donor material and fed to foreign entry points only
+            }
+            _ => return None,
+        }
+    }
+    Some(v)
+}
+
+fn walk_files(dir: &PathBuf, out: &mut Vec<PathBuf>) {
+    let Ok(rd) = std::fs::read_dir(dir) else { return };
+    let mut entries: Vec<_> = rd.filter_map(|e| e.ok()).map(|e| e.path()).collect();
+    entries.sort();
+    for p in entries {
+        if p.is_dir() {
+            walk_files(&p, out);
+        } else {
+            out.push(p);
+        }
+    }
+}
+
+fn captured_seeds(max_len: usize) -> Vec<Seed> {
+    let root = repo_dir().join("test-data");
+    let mut files = Vec::new();
+    walk_files(&root, &mut files);
+    let mut seeds = Vec::new();
+    for f in files {
+        let rel = f.strip_prefix(repo_dir()).unwrap_or(&f).to_string_lossy().to_string();
+        let Some(home) = homes_for(&rel) else { continue };
+        let Ok(data) = std::fs::read(&f) else { continue };
+        if data.is_empty() || data.len() > max_len {
+            continue;
+        }
+        let text = rel.ends_with(".tal");
+        seeds.push(Seed { name: rel, forest: if text { None } else { m::parse(&data) }, data, home, text, plan: Plan::None });
+    }
+    seeds
+}
+
+/// Objects made with the library's own builders under the key pool. Cached
+/// on disk so that all shards (and the Miri stage, which cannot sign) see
+/// the same bytes.
+fn built_seeds(crypto: bool, max_len: usize) -> Vec<Seed> {
+    let dir = build_dir().join("c04-seeds-v4");
+    let index = dir.join("index.json");
+    if !index.exists() && crypto {
+        let made = catch(build_objects).unwrap_or_default();
+        if !made.is_empty() {
+            let _ = std::fs::create_dir_all(&dir);
+            let tmpdir = build_dir().join(format!("c04-seeds-v4.tmp{}", std::process::id()));
+            let _ = std::fs::create_dir_all(&tmpdir);
+            let mut idx = Vec::new();
+            for (i, (name, data, home, plan)) in made.iter().enumerate() {
+                let file = format!("{:02}.bin", i);
+                let _ = std::fs::write(tmpdir.join(&file), data);
+                idx.push(json!({"name": name, "file": file, "plan": plan.to_text(), "home": home.iter().map(|e| e.name()).collect::<Vec<_>>()}));
+            }
+            let _ = std::fs::write(tmpdir.join("index.json"), serde_json::to_string(&idx).unwrap());
+            // whoever renames first wins; losers clean up their copy
+            if std::fs::rename(&tmpdir, &dir).is_err() {
+                let _ = std::fs::remove_dir_all(&tmpdir);
+            }
+        }
+    }
+    let mut seeds = Vec::new();
+    let Ok(text) = std::fs::read_to_string(&index) else { return seeds };
+    let Ok(Value::Array(items)) = serde_json::from_str::<Value>(&text) else { return seeds };
+    for it in items {
+        let name = it["name"].as_str().unwrap_or("").to_string();
+        let Ok(data) = std::fs::read(dir.join(it["file"].as_str().unwrap_or(""))) else { continue };
+        if data.len() > max_len {
+            continue;
+        }
+        let home: Vec<Ep> = it["home"]
+            .as_array()
+            .map(|a| a.iter().filter_map(|x| Ep::from_name(x.as_str().unwrap_or(""))).collect())
+            .unwrap_or_default();
+        let text = name.ends_with(".tal");
+        let plan = Plan::from_text(it["plan"].as_str().unwrap_or(""));
+        seeds.push(Seed { name: format!("built/{}", name), forest: if text { None } else { m::parse(&data) }, data, home, text, plan });
+    }
+    seeds
+}
+
+type Made = Vec<(String, Vec<u8>, Vec<Ep>, Plan)>;
+
+fn build_objects() -> Made {
+    use bytes::Bytes;
+    use rpki::ca::csr::Csr;
+    use rpki::ca::idcert::IdCert;
+    use rpki::ca::idexchange::{RecipientHandle, SenderHandle};
+    use rpki::ca::provisioning;
+    use rpki::ca::publication;
+    use rpki::ca::sigmsg::SignedMessage;
+    use rpki::crypto::{DigestAlgorithm, PublicKey};
+    use rpki::repository::aspa::AspaBuilder;
+    use rpki::repository::cert::{ExtendedKeyUsage, KeyUsage, Overclaim, TbsCert};
+    use rpki::repository::crl::{CrlEntry, TbsCertList};
+    use rpki::repository::manifest::{FileAndHash, ManifestContent};
+    use rpki::repository::resources::{Asn, Prefix};
+    use rpki::repository::roa::RoaBuilder;
+    use rpki::repository::rta::AttestationBuilder;
+    use rpki::repository::sigobj::SignedObjectBuilder;
+    use rpki::repository::x509::{Serial, Time};
+    use rpki::uri;
+
+    let pool = crate::keys::PoolSigner::new(3);
+    let validity = self::c04_eval::fixed_validity();
+    let t0 = Time::utc(2025, 6, 1, 12, 0, 0);
+    let mut out: Made = Vec::new();
+    let rs = |s: &str| uri::Rsync::from_str(s).unwrap();
+    let sigobj = |serial: u64, name: &str| {
+        let mut b = SignedObjectBuilder::new(
+            Serial::from(serial),
+            validity,
+            rs("rsync://example.com/repo/ca/ca.crl"),
+            rs("rsync://example.com/ta/ta.cer"),
+            rs(&format!("rsync://example.com/repo/ca/{}", name)),
+        );
+        b.set_signing_time(t0);
+        b
+    };
+
+    // certificate chain: TA (key 0) -> CA (key 1) ; EE objects hang off the TA
+    let ta = self::c04_eval::build_ta(&pool);
+    out.push(("ta.cer".into(), ta.to_captured().into_bytes().to_vec(), vec![Ep::Cert], Plan::X509(0)));
+    let ta_name = ta.subject().clone();
+    let ta_ski = ta.subject_key_identifier();
+    {
+        let mut ca = TbsCert::new(
+            Serial::from(0x1234_5678_9ABC_DEF0u64),
+            ta_name.clone(),
+            validity,
+            None,
+            pool.info(1),
+            KeyUsage::Ca,
+            Overclaim::Trim,
+        );
+        ca.set_basic_ca(Some(true));
+        ca.set_authority_key_identifier(Some(ta_ski));
+        ca.set_crl_uri(Some(rs("rsync://example.com/repo/ca/ca.crl")));
+        ca.set_ca_issuer(Some(rs("rsync://example.com/ta/ta.cer")));
+        ca.set_ca_repository(Some(rs("rsync://example.com/repo/sub/")));
+        ca.set_rpki_manifest(Some(rs("rsync://example.com/repo/sub/sub.mft")));
+        ca.set_rpki_notify(Some(uri::Https::from_str("https://example.com/rrdp/notification.xml").unwrap()));
+        ca.build_v4_resource_blocks(|b| {
+            b.push(Prefix::new(std::net::Ipv4Addr::new(10, 0, 0, 0), 8));
+            b.push((
+                rpki::repository::resources::Addr::from_v4(std::net::Ipv4Addr::new(192, 168, 0, 0)),
+                rpki::repository::resources::Addr::from_v4(std::net::Ipv4Addr::new(192, 168, 5, 255)).to_max(32),
+            ));
+        });
+        ca.build_v6_resource_blocks(|b| b.push(Prefix::new(std::net::Ipv6Addr::from_str("2001:db8::").unwrap(), 32)));
+        ca.build_as_resource_blocks(|b| {
+            b.push(Asn::from_u32(64496));
+            b.push((Asn::from_u32(65000), Asn::from_u32(65100)));
+            b.push((Asn::from_u32(4_200_000_000), Asn::MAX));
+        });
+        let ca = ca.into_cert(&pool, &0).expect("ca");
+        out.push(("ca.cer".into(), ta_bytes(&ca), vec![Ep::Cert], Plan::X509(0)));
+
+        // inherit-everything CA
+        let mut inh = TbsCert::new(Serial::from(77u64), ta_name.clone(), validity, None, pool.info(2), KeyUsage::Ca, Overclaim::Refuse);
+        inh.set_basic_ca(Some(true));
+        inh.set_authority_key_identifier(Some(ta_ski));
+        inh.set_crl_uri(Some(rs("rsync://example.com/repo/ca/ca.crl")));
+        inh.set_ca_issuer(Some(rs("rsync://example.com/ta/ta.cer")));
+        inh.set_ca_repository(Some(rs("rsync://example.com/repo/inh/")));
+        inh.set_rpki_manifest(Some(rs("rsync://example.com/repo/inh/inh.mft")));
+        inh.set_v4_resources_inherit();
+        inh.set_v6_resources_inherit();
+        inh.set_as_resources_inherit();
+        let inh = inh.into_cert(&pool, &0).expect("inh");
+        out.push(("inherit.cer".into(), ta_bytes(&inh), vec![Ep::Cert], Plan::X509(0)));
+    }
+    // router certificate (P-256 key)
+    {
+        let spki = crate::keys::p256_spki();
+        if let Ok(key) = PublicKey::decode(spki.as_slice()) {
+            let mut rc = TbsCert::new(Serial::from(42u64), ta_name.clone(), validity, None, key, KeyUsage::Ee, Overclaim::Refuse);
+            rc.set_authority_key_identifier(Some(ta_ski));
+            rc.set_crl_uri(Some(rs("rsync://example.com/repo/ca/ca.crl")));
+            rc.set_ca_issuer(Some(rs("rsync://example.com/ta/ta.cer")));
+            rc.set_extended_key_usage(Some(ExtendedKeyUsage::create_router()));
+            rc.build_as_resource_blocks(|b| b.push(Asn::from_u32(64512)));
+            let rc = rc.into_cert(&pool, &0).expect("router");
+            out.push(("router.cer".into(), ta_bytes(&rc), vec![Ep::Cert], Plan::X509(0)));
+            out.push(("p256.spki".into(), spki, vec![Ep::PubKey], Plan::None));
+        }
+    }
+    out.push(("rsa.spki".into(), pool.key(1).spki.clone(), vec![Ep::PubKey], Plan::None));
+
+    // CRL with entries
+    let crl = {
+        let entries = vec![
+            CrlEntry::new(Serial::from(3u64), Time::utc(2024, 5, 1, 0, 0, 0)),
+            CrlEntry::new(Serial::from(0x80u64), Time::utc(2024, 6, 1, 0, 0, 0)),
+            CrlEntry::new(Serial::from(u128::MAX >> 1), Time::utc(2051, 1, 1, 0, 0, 0)),
+        ];
+        let tbs = TbsCertList::new(
+            Default::default(),
+            ta_name.clone(),
+            Time::utc(2025, 1, 1, 0, 0, 0),
+            Time::utc(2027, 1, 1, 0, 0, 0),
+            entries,
+            ta_ski,
+            Serial::from(9u64),
+        );
+        tbs.into_crl(&pool, &0).expect("crl")
+    };
+    out.push(("ca.crl".into(), crl.to_captured().into_bytes().to_vec(), vec![Ep::Crl], Plan::X509(0)));
+
+    // manifest
+    {
+        let files: Vec<FileAndHash<Vec<u8>, Vec<u8>>> = vec![
+            FileAndHash::new(b"ca.crl".to_vec(), crate::keys::sha256(b"a")),
+            FileAndHash::new(b"AS64496-roa_1.roa".to_vec(), crate::keys::sha256(b"b")),
+            FileAndHash::new(b"x.asa".to_vec(), crate::keys::sha256(b"c")),
+        ];
+        let content = ManifestContent::new(
+            Serial::from(0x0102u64),
+            Time::utc(2025, 1, 1, 0, 0, 0),
+            Time::utc(2027, 1, 1, 0, 0, 0),
+            DigestAlgorithm::default(),
+            files.iter(),
+        );
+        pool.set_next_one_off(1);
+        let mft = content.into_manifest(sigobj(100, "ca.mft"), &pool, &0).expect("mft");
+        out.push(("ca.mft".into(), mft.to_captured().into_bytes().to_vec(), vec![Ep::MftStrict, Ep::MftRelaxed, Ep::SigObjStrict, Ep::SigObjRelaxed], Plan::Cms { ee: 1, issuer: 0 }));
+    }
+    // ROA
+    {
+        let mut b = RoaBuilder::new(Asn::from_u32(64496));
+        b.push_v4_addr(std::net::Ipv4Addr::new(10, 1, 0, 0), 16, Some(24));
+        b.push_v4_addr(std::net::Ipv4Addr::new(192, 168, 1, 0), 24, None);
+        b.push_v4_addr(std::net::Ipv4Addr::new(0, 0, 0, 0), 0, Some(32));
+        b.push_v6_addr(std::net::Ipv6Addr::from_str("2001:db8:1::").unwrap(), 48, Some(64));
+        b.push_v6_addr(std::net::Ipv6Addr::from_str("2001:db8::1").unwrap(), 128, None);
+        pool.set_next_one_off(1);
+        let roa = b.finalize(sigobj(101, "r.roa"), &pool, &0).expect("roa");
+        out.push(("r.roa".into(), roa.to_captured().into_bytes().to_vec(), vec![Ep::RoaStrict, Ep::RoaRelaxed, Ep::SigObjStrict, Ep::SigObjRelaxed], Plan::Cms { ee: 1, issuer: 0 }));
+    }
+    // ASPA
+    {
+        let b = AspaBuilder::new(
+            Asn::from_u32(64496),
+            vec![Asn::from_u32(64497), Asn::from_u32(65000), Asn::from_u32(0), Asn::from_u32(u32::MAX)],
+        )
+        .expect("aspa builder");
+        pool.set_next_one_off(1);
+        let aspa = b.finalize(sigobj(102, "a.asa"), &pool, &0).expect("aspa");
+        out.push(("a.asa".into(), aspa.to_captured().into_bytes().to_vec(), vec![Ep::AspaStrict, Ep::AspaRelaxed, Ep::SigObjStrict, Ep::SigObjRelaxed], Plan::Cms { ee: 1, issuer: 0 }));
+    }
+    // RTA: EE (key 1) under the TA, plus a CRL in the bag
+    {
+        let digest = DigestAlgorithm::default().digest(b"c04 attested document");
+        let mut ab = AttestationBuilder::new(DigestAlgorithm::default(), digest.into());
+        ab.push_key(pool.info(1).key_identifier());
+        ab.push_as(Asn::from_u32(64496));
+        ab.push_v4(Prefix::new(std::net::Ipv4Addr::new(10, 2, 0, 0), 16));
+        ab.push_v6(Prefix::new(std::net::Ipv6Addr::from_str("2001:db8:2::").unwrap(), 48));
+        let mut rb = ab.into_rta_builder();
+        let mut ee = TbsCert::new(Serial::from(200u64), ta_name.clone(), validity, None, pool.info(1), KeyUsage::Ee, Overclaim::Refuse);
+        ee.set_authority_key_identifier(Some(ta_ski));
+        ee.set_crl_uri(Some(rs("rsync://example.com/repo/ca/ca.crl")));
+        ee.set_ca_issuer(Some(rs("rsync://example.com/ta/ta.cer")));
+        ee.build_as_resource_blocks(|b| b.push(Asn::from_u32(64496)));
+        ee.build_v4_resource_blocks(|b| b.push(Prefix::new(std::net::Ipv4Addr::new(10, 2, 0, 0), 16)));
+        ee.build_v6_resource_blocks(|b| b.push(Prefix::new(std::net::Ipv6Addr::from_str("2001:db8:2::").unwrap(), 48)));
+        let ee = ee.into_cert(&pool, &0).expect("rta ee");
+        rb.push_cert(ee);
+        rb.sign(&pool, &1, t0).expect("rta sign");
+        let plain = rb.finalize();
+        out.push(("plain.rta".into(), plain.to_captured().into_bytes().to_vec(), vec![Ep::RtaStrict, Ep::RtaRelaxed], Plan::None));
+        let mut rb2 = rpki::repository::rta::RtaBuilder::from_rta(plain);
+        rb2.push_cert(ta.clone());
+        rb2.push_crl(crl.clone());
+        let with_ca = rb2.finalize();
+        out.push(("with-ca.rta".into(), with_ca.to_captured().into_bytes().to_vec(), vec![Ep::RtaStrict, Ep::RtaRelaxed], Plan::None));
+    }
+    // CSR
+    {
+        let csr = Csr::construct_rpki_ca(
+            &pool,
+            &1,
+            &rs("rsync://example.com/repo/sub/"),
+            &rs("rsync://example.com/repo/sub/sub.mft"),
+            Some(&uri::Https::from_str("https://example.com/rrdp/notification.xml").unwrap()),
+        )
+        .expect("csr");
+        out.push(("ca.csr".into(), csr.into_bytes().to_vec(), vec![Ep::CaCsr, Ep::BgpsecCsr], Plan::X509(1)));
+    }
+    // identity certificates
+    {
+        let ta = IdCert::new_ta(validity, &0, &pool).expect("id ta");
+        out.push(("id-ta.cer".into(), ta.to_bytes().to_vec(), vec![Ep::IdCert, Ep::Cert], Plan::X509(0)));
+        let ee = IdCert::new_ee(&pool.info(1), validity, &0, &pool).expect("id ee");
+        out.push(("id-ee.cer".into(), ee.to_bytes().to_vec(), vec![Ep::IdCert, Ep::Cert], Plan::X509(0)));
+    }
+    // signed protocol messages
+    {
+        let cms_eps = vec![Ep::SigMsgStrict, Ep::SigMsgRelaxed, Ep::ProvCms, Ep::PubCms];
+        let sender = SenderHandle::from_str("child").unwrap();
+        let recipient = RecipientHandle::from_str("parent").unwrap();
+        let list = provisioning::Message::list(sender, recipient);
+        pool.set_next_one_off(1);
+        let sm = SignedMessage::create(list.to_xml_bytes(), validity, &0, &pool).expect("sigmsg prov");
+        out.push(("prov-list.cms".into(), sm.to_captured().into_bytes().to_vec(), cms_eps.clone(), Plan::Cms { ee: 1, issuer: 0 }));
+        pool.set_next_one_off(1);
+        if let Ok(cms) = provisioning::ProvisioningCms::create(list.clone(), &0, &pool) {
+            out.push(("prov-list-now.cms".into(), cms.to_bytes().to_vec(), cms_eps.clone(), Plan::Cms { ee: 1, issuer: 0 }));
+        }
+        let q = publication::Message::list_query();
+        pool.set_next_one_off(1);
+        let sm = SignedMessage::create(q.to_xml_bytes(), validity, &0, &pool).expect("sigmsg pub");
+        out.push(("pub-list.cms".into(), sm.to_captured().into_bytes().to_vec(), cms_eps.clone(), Plan::Cms { ee: 1, issuer: 0 }));
+        let mut delta = publication::PublishDelta::empty();
+        delta.add_publish(publication::Publish::with_hash_tag(
+            rs("rsync://example.com/repo/ca/x.roa"),
+            publication::Base64::from_content(b"object bytes"),
+        ));
+        let d = publication::Message::delta(delta);
+        pool.set_next_one_off(1);
+        let sm = SignedMessage::create(d.to_xml_bytes(), validity, &0, &pool).expect("sigmsg delta");
+        out.push(("pub-delta.cms".into(), sm.to_captured().into_bytes().to_vec(), cms_eps.clone(), Plan::Cms { ee: 1, issuer: 0 }));
+        let _ = Bytes::new();
+        // the same kind of message with a non-empty revocation list in its CRL
+        // (the library only ever creates empty ones): edit the TLV tree, re-sign
+        let base = out.iter().find(|x| x.0 == "prov-list.cms").map(|x| x.1.clone());
+        if let Some(mut f) = base.and_then(|b| m::parse(&b)) {
+            if let Some(tbs) = m::cms_layout(&f).and_then(|l| l.crl).map(|mut p| { p.push(0); p }) {
+                if let Some(kids) = m::at_mut(&mut f, &tbs).and_then(|t| t.children_mut()) {
+                    let entry = |serial: &[u8], when: &[u8]| T::cons(0x30, vec![T::leaf(0x02, serial), T::leaf(0x17, when)]);
+                    let list = T::cons(0x30, vec![
+                        entry(&[0x05], b"240101000000Z"),
+                        entry(&[0x00, 0x80], b"240201000000Z"),
+                        entry(&[0x7F, 0xFF, 0xFF, 0xFF, 0xFF, 0xFF, 0xFF, 0xFF], b"240301000000Z"),
+                    ]);
+                    // TBSCertList: version, signature, issuer, thisUpdate, nextUpdate, [revoked], [0] extensions
+                    if kids.len() >= 6 {
+                        if kids[5].tag == 0x30 {
+                            kids[5] = list; // the library writes an empty list
+                        } else {
+                            kids.insert(5, list);
+                        }
+                        let k0 = |d: &[u8]| pool.key(0).sign_raw(d);
+                        let k1 = |d: &[u8]| pool.key(1).sign_raw(d);
+                        if m::resign_cms(&mut f, &|d| crate::keys::sha256(d), &k1, &k0) {
+                            out.push(("prov-list-revoked.cms".into(), m::to_bytes(&f), cms_eps.clone(), Plan::Cms { ee: 1, issuer: 0 }));
+                        }
+                    }
+                }
+            }
+        }
+    }
+    // TAL
+    {
+        let text = format!(
+            "# built by the C04 harness\nrsync://example.com/ta/ta.cer\nhttps://example.com/ta/ta.cer\n\n{}\n",
+            wrap64(&self::c04_eval::b64(&pool.key(0).spki))
+        );
+        out.push(("built.tal".into(), text.into_bytes(), vec![Ep::Tal], Plan::None));
+        let text = format!("https://example.com/ta/ta.cer\r\n\r\n{}", self::c04_eval::b64(&pool.key(1).spki));
+        out.push(("crlf.tal".into(), text.into_bytes(), vec![Ep::Tal], Plan::None));
+    }
+    out
+}
+
+fn ta_bytes(c: &rpki::repository::Cert) -> Vec<u8> {
+    c.to_captured().into_bytes().to_vec()
+}
+
+fn wrap64(s: &str) -> String {
+    s.as_bytes().chunks(64).map(|c| std::str::from_utf8(c).unwrap()).collect::<Vec<_>>().join("\n")
+}
+
+/// Sub-structures that decode through the component entry points, found by
+/// trying every subtree of every seed (decode only, no sweep).
+fn discover(seeds: &[Seed], fixed: &Fixed, cap_per_ep: usize) -> Vec<Seed> {
+    let targets = [
+        Ep::AsResDer,
+        Ep::IpResDer,
+        Ep::MftContentDer,
+        Ep::CrlTbsDer,
+        Ep::Time,
+        Ep::Serial,
+        Ep::Name,
+        Ep::PubKey,
+    ];
+    let twin = |e: Ep| match e {
+        Ep::AsResDer => vec![Ep::AsResDer, Ep::AsResBer],
+        Ep::IpResDer => vec![Ep::IpResDer, Ep::IpResBer],
+        Ep::MftContentDer => vec![Ep::MftContentDer, Ep::MftContentBer],
+        Ep::CrlTbsDer => vec![Ep::CrlTbsDer, Ep::CrlTbsBer],
+        other => vec![other],
+    };
+    let opts = Opts { crypto: false, fixed, light: true };
+    let mut found: Vec<Seed> = Vec::new();
+    let mut seen: HashSet<u64> = HashSet::new();
+    let mut per: std::collections::BTreeMap<Ep, usize> = Default::default();
+    fn subtrees(f: &[T], out: &mut Vec<Vec<u8>>) {
+        for t in f {
+            let mut b = Vec::new();
+            t.ser(&mut b);
+            if b.len() >= 3 && b.len() <= 8192 {
+                out.push(b);
+            }
+            if let Some(c) = t.children() {
+                subtrees(c, out);
+            }
+        }
+    }
+    for s in seeds {
+        let Some(f) = &s.forest else { continue };
+        if s.data.len() > 20_000 {
+            continue;
+        }
+        let mut subs = Vec::new();
+        subtrees(f, &mut subs);
+        for b in subs {
+            let h = fnv64(&b);
+            if !seen.insert(h) {
+                continue;
+            }
+            for ep in targets {
+                if *per.get(&ep).unwrap_or(&0) >= cap_per_ep {
+                    continue;
+                }
+                // small values of the scalar decoders: keep only a few
+                let ok = catch(|| decode_only(ep, &b, &opts)).unwrap_or(false);
+                if ok {
+                    *per.entry(ep).or_insert(0) += 1;
+                    found.push(Seed {
+                        name: format!("part/{}#{}@{}", ep.name(), per[&ep], s.name),
+                        forest: m::parse(&b),
+                        data: b.clone(),
+                        home: twin(ep),
+                        text: false,
+                        plan: Plan::None,
+                    });
+                }
+            }
+        }
+    }
+    found
+}
+
+fn decode_only(ep: Ep, data: &[u8], _o: &Opts) -> bool {
+    use bcder::Mode;
+    use rpki::repository::resources::{AsResources, IpResources};
+    match ep {
+        Ep::AsResDer => Mode::Der.decode(data, AsResources::take_from).is_ok(),
+        Ep::IpResDer => Mode::Der.decode(data, IpResources::take_families_from).is_ok(),
+        Ep::MftContentDer => Mode::Der.decode(data, rpki::repository::manifest::ManifestContent::take_from).is_ok(),
+        Ep::CrlTbsDer => Mode::Der.decode(data, rpki::repository::crl::TbsCertList::take_from).is_ok(),
+        Ep::Time => Mode::Der.decode(data, rpki::repository::x509::Time::take_from).is_ok(),
+        Ep::Serial => data.len() > 4 && Mode::Der.decode(data, rpki::repository::x509::Serial::take_from).is_ok(),
+        Ep::Name => Mode::Der.decode(data, rpki::repository::x509::Name::take_from).is_ok(),
+        Ep::PubKey => rpki::crypto::PublicKey::decode(data).is_ok(),
+        _ => false,
+    }
+}
+
+//------------ Breadcrumb ---------------------------------------------------
+
+/// `Ctx::breadcrumb` re-creates the file on every call, which costs about a
+/// millisecond on this file system; at 10^4..10^6 evaluations per shard that
+/// is the whole budget. This writer keeps `<out>.crumb` open and overwrites
+/// it in place (padding with blanks up to the longest record so far), so the
+/// driver still finds the culprit at the end of the file if the shard dies.
+struct Crumb {
+    file: Option<std::fs::File>,
+    longest: usize,
+    buf: Vec<u8>,
+}
+
+impl Crumb {
+    fn new(ctx: &Ctx) -> Self {
+        let file = ctx.out_path.as_ref().and_then(|p| std::fs::File::create(format!("{}.crumb", p)).ok());
+        Crumb { file, longest: 0, buf: Vec::new() }
+    }
+
+    fn put(&mut self, parts: &[&[u8]]) {
+        use std::io::{Seek, SeekFrom, Write};
+        let Some(f) = &mut self.file else { return };
+        // right-aligned: the record is always the tail of the file
+        let len: usize = parts.iter().map(|p| p.len()).sum::<usize>() + 1;
+        self.longest = self.longest.max(len);
+        self.buf.clear();
+        self.buf.resize(self.longest - len, b' ');
+        self.buf.push(b'\n');
+        for p in parts {
+            self.buf.extend_from_slice(p);
+        }
+        let _ = f.seek(SeekFrom::Start(0));
+        let _ = f.write_all(&self.buf);
+    }
+}
+
+//------------ CPU clock calibration -----------------------------------------
+
+/// A fixed piece of pure computation (about a millisecond). In this sandbox
+/// the thread CPU clock also runs while the hypervisor has the vCPU
+/// descheduled, so under host load a measurement can be inflated by an order
+/// of magnitude; an over-budget measurement only counts when this reference,
+/// taken right next to it, is not inflated as well.
+fn spin_ns() -> u64 {
+    let t0 = thread_cpu_ns();
+    let mut h = 0xcbf2_9ce4_8422_2325u64;
+    for i in 0..400_000u64 {
+        h = (h ^ (i & 0xFF)).wrapping_mul(0x0100_0000_01b3);
+    }
+    std::hint::black_box(h);
+    thread_cpu_ns().saturating_sub(t0)
+}
+
+fn calibrate() -> u64 {
+    (0..7).map(|_| spin_ns()).min().unwrap_or(1).max(1)
+}
+
+//------------ Runaway watchdog ----------------------------------------------
+
+/// CPU time (ns, worker thread clock) at which the evaluation in progress
+/// started; 0 while idle.
+static EVAL_STARTED_AT: std::sync::atomic::AtomicU64 = std::sync::atomic::AtomicU64::new(0);
+
+/// A decoder that loops cannot be interrupted from inside. A helper thread
+/// reads the *worker thread's CPU clock* (not wall time) twice a second; an
+/// evaluation that has burnt more than 100 times the budget's constant part
+/// (20 s) aborts the process, leaving the breadcrumb (entry point + input) for
+/// the driver, which re-runs the shard and reports the repeated death.
+fn start_watchdog() {
+    let worker = unsafe { libc::pthread_self() };
+    let _ = std::thread::Builder::new().name("c04-watchdog".into()).spawn(move || {
+        let mut clk: libc::clockid_t = 0;
+        if unsafe { libc::pthread_getcpuclockid(worker, &mut clk) } != 0 {
+            return;
+        }
+        loop {
+            std::thread::sleep(std::time::Duration::from_millis(500));
+            let started = EVAL_STARTED_AT.load(std::sync::atomic::Ordering::Relaxed);
+            if started == 0 {
+                continue;
+            }
+            let mut ts = libc::timespec { tv_sec: 0, tv_nsec: 0 };
+            unsafe { libc::clock_gettime(clk, &mut ts) };
+            let now = ts.tv_sec as u64 * 1_000_000_000 + ts.tv_nsec as u64;
+            if now.saturating_sub(started) > 20_000_000_000
+                && EVAL_STARTED_AT.load(std::sync::atomic::Ordering::Relaxed) == started
+            {
+                eprintln!("C04 watchdog: one evaluation has used more than 20 s of CPU time (budget 0.2 s + 1 us/byte): runaway; aborting, see breadcrumb");
+                std::process::abort();
+            }
+        }
+    });
+}
+
+//------------ Monitor state -------------------------------------------------
+
+struct Mon<'a> {
+    opts: Opts<'a>,
+    native: bool,
+    miri: bool,
+    evals: u64,
+    accepted: u64,
+    rejected: u64,
+    trivial: u64,
+    validated: u64,
+    panics: u64,
+    h1_bad: u64,
+    since_drain: u32,
+    max_heap_permille: u64,
+    max_cpu_permille: u64,
+    slow: u64,
+    spin_base: u64,
+    crumb_every: u32,
+    crumb: Crumb,
+}
+
+struct Case<'c> {
+    ep: Ep,
+    data: &'c [u8],
+    mutator: &'c str,
+    seed: &'c str,
+}
+
+fn detail(c: &Case, extra: Value) -> Value {
+    let mut d = json!({
+        "ep": c.ep.name(),
+        "mutator": c.mutator,
+        "seed": c.seed,
+        "len": c.data.len(),
+        "fnv64": format!("{:016x}", fnv64(c.data)),
+        "replay_case": {"ep": c.ep.name(), "hex": if c.data.len() <= 300_000 { hex(c.data) } else { String::new() }},
+    });
+    if let (Some(o), Some(e)) = (d.as_object_mut(), extra.as_object()) {
+        for (k, v) in e {
+            o.insert(k.clone(), v.clone());
+        }
+    }
+    d
+}
+
+impl Mon<'_> {
+    /// One oracle evaluation.
+    fn eval(&mut self, ctx: &mut Ctx, c: &Case) -> Option<Outcome> {
+        self.evals += 1;
+        if self.crumb_every <= 1 || self.evals % self.crumb_every as u64 == 0 {
+            let head = format!("ep={} mutator={} seed={} len={} ", c.ep.name(), c.mutator, c.seed, c.data.len());
+            if c.data.len() <= 6000 {
+                let h = hex(c.data);
+                self.crumb.put(&[head.as_bytes(), b"hex=", h.as_bytes()]);
+            } else {
+                let t = format!(
+                    "fnv64={:016x} eval_index={} (input too long for the breadcrumb; regenerate with the same seed/shard)",
+                    fnv64(c.data), self.evals
+                );
+                self.crumb.put(&[head.as_bytes(), t.as_bytes()]);
+            }
+        }
+        let (res, peak, cpu) = self.measure(c);
+        let out = match res {
+            Ok(o) => o,
+            Err((text, via)) => {
+                self.panics += 1;
+                // a panic site inside std is named by the library frame that led there
+                let site = match &via {
+                    Some(v) if v.starts_with("inlined-into ") || v.starts_with("fn ") => format!("std:{}", v.replace(' ', "_")),
+                    Some(v) => format!("{}:std", panic_site(v.split(" (").next().unwrap_or(v))),
+                    None => panic_site(&text),
+                };
+                ctx.violation(
+                    &format!("C04:panic:{}", site),
+                    &format!("panic in {} (decode or accessor sweep): {}{}", c.ep.name(), text,
+                             via.as_ref().map(|v| format!(" [reached from {}]", v)).unwrap_or_default()),
+                    detail(c, json!({"panic": text, "innermost_library_frame": via})),
+                );
+                self.after(ctx, c);
+                return None;
+            }
+        };
+        // resource budgets
+        let hb = heap_budget(c.data.len());
+        self.max_heap_permille = self.max_heap_permille.max(peak * 1000 / hb);
+        if peak > hb {
+            // confirm twice
+            let again: Vec<u64> = (0..2).map(|_| self.measure(c).1).collect();
+            if again.iter().all(|p| *p > hb) {
+                ctx.violation(
+                    &format!("C04:heap-budget:{}", c.ep.name()),
+                    &format!("peak heap {} bytes for a {}-byte input exceeds 64 KiB + 64*len = {} (three runs)", peak, c.data.len(), hb),
+                    detail(c, json!({"peak": peak, "budget": hb, "reruns": again})),
+                );
+            }
+        }
+        if self.native {
+            let cb = cpu_budget_ns(c.data.len());
+            self.max_cpu_permille = self.max_cpu_permille.max(cpu * 1000 / cb);
+            if cpu * 10 > cb {
+                // worth showing: what the slowest evaluations look like
+                self.slow += 1;
+                let shown = &c.data[..c.data.len().min(48)];
+                ctx.sample("slow(>10% of the cpu budget)", || {
+                    json!({"ep": c.ep.name(), "seed": c.seed, "mutator": c.mutator, "input_len": c.data.len(), "input_head_hex": hex(shown),
+                           "cpu_ns": cpu, "budget_ns": cb, "peak_heap": peak, "observed": out.class, "accessor_results_touched": out.touched})
+                });
+            }
+            if cpu > cb {
+                // confirm: two further over-budget runs, each taken while the
+                // reference computation next to it runs at its normal speed
+                let mut over: Vec<u64> = Vec::new();
+                let mut cleared = false;
+                let mut noisy = 0;
+                for attempt in 0..10u64 {
+                    std::thread::sleep(std::time::Duration::from_millis(10 * attempt));
+                    let before = spin_ns();
+                    let t = self.measure(c).2;
+                    let after = spin_ns();
+                    if before > 2 * self.spin_base || after > 2 * self.spin_base {
+                        noisy += 1;
+                        continue;
+                    }
+                    if t <= cb {
+                        cleared = true;
+                        break;
+                    }
+                    over.push(t);
+                    if over.len() == 2 {
+                        break;
+                    }
+                }
+                if !cleared && over.len() == 2 {
+                    ctx.violation(
+                        &format!("C04:cpu-budget:{}", c.ep.name()),
+                        &format!("CPU time {} ns for a {}-byte input exceeds 0.2 s + 1 us*len = {} ns (three runs, clock reference steady)", cpu, c.data.len(), cb),
+                        detail(c, json!({"cpu_ns": cpu, "budget_ns": cb, "reruns": over, "noisy_reruns_discarded": noisy})),
+                    );
+                } else if !cleared {
+                    ctx.obs("cpu_over_budget_but_clock_too_noisy_to_confirm(not_a_verdict)", 1);
+                } else {
+                    ctx.obs("cpu_over_budget_once_not_confirmed(clock_noise)", 1);
+                }
+            }
+        }
+        if out.ok {
+            self.accepted += 1;
+            if out.validated {
+                self.validated += 1;
+            }
+        } else {
+            self.rejected += 1;
+        }
+        // case signature: (entry point, mutator, outcome class, how deep the decoder got)
+        let depth = if out.ok {
+            9
+        } else if c.data.is_empty() {
+            0
+        } else {
+            (out.err_pos.min(c.data.len()) * 8 / c.data.len().max(1)).min(8)
+        };
+        if !out.ok && out.err_pos <= 4 {
+            self.trivial += 1;
+        } else {
+            ctx.sig(&format!("{}|{}|{}|d{}", c.ep.name(), c.mutator, out.class, depth));
+        }
+        // samples by what was observed (a few literal cases per kind)
+        let kind: &str = if c.mutator == "unchanged" {
+            if out.ok { "unchanged seed accepted" } else { "unchanged seed through a foreign entry point" }
+        } else if c.mutator.starts_with("nest:") {
+            "nesting tower (child process, 2 MiB stack)"
+        } else if c.mutator.starts_with("resign") && out.validated {
+            "re-signed mutant that passed validation against the fixed issuer"
+        } else if out.validated {
+            "mutant accepted and validated"
+        } else if out.ok {
+            "mutant accepted by the decoder"
+        } else if out.err_pos <= 4 {
+            "mutant rejected at the outermost header (trivial)"
+        } else {
+            "mutant rejected inside the decoder"
+        };
+        if ctx.wants_sample(kind) {
+            let shown = &c.data[..c.data.len().min(96)];
+            ctx.sample(kind, || {
+                json!({"ep": c.ep.name(), "seed": c.seed, "mutator": c.mutator, "input_len": c.data.len(), "input_head_hex": hex(shown),
+                       "observed": out.class, "error_position": out.err_pos, "accessor_results_touched": out.touched,
+                       "validated_against_fixed_issuer": out.validated, "peak_heap": peak, "cpu_ns": cpu})
+            });
+        }
+        self.after(ctx, c);
+        Some(out)
+    }
+
+    fn measure(&self, c: &Case) -> (Result<Outcome, (String, Option<String>)>, u64, u64) {
+        let base = window_start();
+        let t0 = if self.miri { 0 } else { thread_cpu_ns() };
+        EVAL_STARTED_AT.store(t0, std::sync::atomic::Ordering::Relaxed);
+        let res = catch2(|| evaluate(c.ep, c.data, &self.opts));
+        EVAL_STARTED_AT.store(0, std::sync::atomic::Ordering::Relaxed);
+        let t1 = if self.miri { 0 } else { thread_cpu_ns() };
+        let (peak, _) = window_peak(base);
+        (res, peak, t1.saturating_sub(t0))
+    }
+
+    /// Hook H1 (chain invariant inside rpki-rs) is C03's observation point;
+    /// decoding hostile resource extensions does produce non-canonical chains
+    /// on this tree (F1/F2). That is not what C04 states, so it is recorded as
+    /// an observation here and never as a C04 violation.
+    fn after(&mut self, ctx: &mut Ctx, c: &Case) {
+        self.since_drain += 1;
+        if self.since_drain >= 64 {
+            self.drain(ctx, Some(c));
+        }
+    }
+
+    fn drain(&mut self, ctx: &mut Ctx, c: Option<&Case>) {
+        self.since_drain = 0;
+        let (count, bad) = rpki::repository::resources::verif_take_chain_observations();
+        ctx.h1_chains += count;
+        if !bad.is_empty() {
+            self.h1_bad += bad.len() as u64;
+            let kinds: Vec<String> = bad.iter().map(|s| s.to_string()).collect();
+            ctx.sample("h1-noncanonical-chain-observed(not-a-C04-verdict)", || {
+                json!({"kinds": kinds, "within_64_evaluations_before": c.map(|c| json!({"ep": c.ep.name(), "seed": c.seed, "mutator": c.mutator}))})
+            });
+        }
+    }
+
+    fn flush(&mut self, ctx: &mut Ctx) {
+        self.drain(ctx, None);
+        ctx.evals(self.evals);
+        ctx.obs("accepted", self.accepted);
+        ctx.obs("rejected", self.rejected);
+        ctx.obs("rejected_at_outermost_header(trivial)", self.trivial);
+        ctx.obs("accepted_and_validated_against_fixed_issuer", self.validated);
+        ctx.obs("panics_caught", self.panics);
+        ctx.obs("h1_noncanonical_chains_seen(observation_only)", self.h1_bad);
+        ctx.obs_max("heap_peak_permille_of_budget", self.max_heap_permille);
+        if self.native {
+            ctx.obs_max("cpu_permille_of_budget", self.max_cpu_permille);
+            ctx.obs("evaluations_over_10pct_of_cpu_budget", self.slow);
+            self.slow = 0;
+        }
+        self.evals = 0;
+        self.accepted = 0;
+        self.rejected = 0;
+        self.trivial = 0;
+        self.validated = 0;
+        self.panics = 0;
+        self.h1_bad = 0;
+    }
+}
+
+//------------ text mutation (TAL) -------------------------------------------
+
+fn mutate_text(data: &mut Vec<u8>, rng: &mut Rng) -> &'static str {
+    match rng.below(8) {
+        0 => {
+            // duplicate / delete / swap a line
+            let mut lines: Vec<Vec<u8>> = data.split(|b| *b == b'\n').map(|l| l.to_vec()).collect();
+            if !lines.is_empty() {
+                let i = rng.usize_below(lines.len());
+                match rng.below(3) {
+                    0 => {
+                        let l = lines[i].clone();
+                        lines.insert(i, l);
+                    }
+                    1 => {
+                        lines.remove(i);
+                    }
+                    _ => {
+                        let j = rng.usize_below(lines.len());
+                        lines.swap(i, j);
+                    }
+                }
+            }
+            *data = lines.join(&b'\n');
+            "text-line"
+        }
+        1 => {
+            let p = rng.usize_below(data.len() + 1);
+            let ins: &[u8] = *rng.pick(&[
+                b"#".as_ref(),
+                b"\n".as_ref(),
+                b"\r\n".as_ref(),
+                b"\n\n".as_ref(),
+                b"=".as_ref(),
+                b"rsync://".as_ref(),
+                b"https://h/\n".as_ref(),
+                b"\0".as_ref(),
+                b"\xff".as_ref(),
+                b" ".as_ref(),
+                b"====".as_ref(),
+            ]);
+            data.splice(p..p, ins.iter().copied());
+            "text-insert"
+        }
+        2 => {
+            if !data.is_empty() {
+                let p = rng.usize_below(data.len());
+                data.truncate(p);
+            }
+            "trunc-random"
+        }
+        3 => {
+            // replace the key part by base64 of something else
+            if let Some(p) = data.windows(2).rposition(|w| w == b"\n\n") {
+                data.truncate(p + 2);
+                let n = rng.usize_below(400);
+                let junk = rng.bytes(n);
+                data.extend_from_slice(self::c04_eval::b64(&junk).as_bytes());
+            }
+            "text-key"
+        }
+        4 => {
+            m::mutate_raw(data, "raw-flip", rng);
+            "raw-flip"
+        }
+        5 => {
+            m::mutate_raw(data, "raw-delete", rng);
+            "raw-delete"
+        }
+        6 => {
+            m::mutate_raw(data, "raw-insert", rng);
+            "raw-insert"
+        }
+        _ => {
+            m::mutate_raw(data, "raw-copy", rng);
+            "raw-copy"
+        }
+    }
+}
+
+//------------ child processes (deep nesting, isolated replays) ---------------
+
+type Item = (Vec<Ep>, Vec<u8>, String);
+
+struct ChildResult {
+    out: Option<Value>,
+    died: Option<String>,
+    crumb: String,
+    stderr_tail: String,
+}
+
+fn run_child(ctx: &Ctx, tag: &str, items: &[Item]) -> Option<ChildResult> {
+    let exe = std::env::current_exe().ok()?;
+    let dir = match &ctx.out_path {
+        Some(p) => PathBuf::from(p).parent().map(|p| p.to_path_buf()).unwrap_or_else(std::env::temp_dir),
+        None => build_dir().join("run"),
+    };
+    let _ = std::fs::create_dir_all(&dir);
+    let base = dir.join(format!("C04-child-{}-{}-{}", std::process::id(), ctx.shard, tag));
+    let case_path = base.with_extension("case.json");
+    let out_path = base.with_extension("out.json");
+    let _ = std::fs::remove_file(&out_path);
+    let case = json!({
+        "child": true,
+        "items": items.iter().map(|(eps, data, what)| json!({"eps": eps.iter().map(|e| e.name()).collect::<Vec<_>>(), "hex": hex(data), "what": what})).collect::<Vec<_>>(),
+    });
+    std::fs::write(&case_path, serde_json::to_string(&case).ok()?).ok()?;
+    let stage = format!("{:?}", ctx.stage).to_lowercase();
+    let tier = if ctx.tier == Tier::Thorough { "thorough" } else { "quick" };
+    let output = std::process::Command::new(exe)
+        .args(["C04", "--tier", tier, "--stage", &stage, "--seed", &ctx.seed.to_string(), "--shard", "0/1"])
+        .arg("--case")
+        .arg(&case_path)
+        .arg("--out")
+        .arg(&out_path)
+        .output()
+        .ok()?;
+    let stderr = String::from_utf8_lossy(&output.stderr).to_string();
+    let crumb_path = format!("{}.crumb", out_path.to_string_lossy());
+    let crumb = std::fs::read_to_string(&crumb_path).unwrap_or_default();
+    let out = std::fs::read_to_string(&out_path).ok().and_then(|t| serde_json::from_str::<Value>(&t).ok());
+    let died = if output.status.success() && out.is_some() {
+        None
+    } else {
+        use std::os::unix::process::ExitStatusExt;
+        Some(if stderr.contains("has overflowed its stack") || stderr.contains("stack overflow") {
+            "stack-overflow".to_string()
+        } else if stderr.contains("memory allocation of") {
+            "alloc-failure".to_string()
+        } else if let Some(sig) = output.status.signal() {
+            if sig == libc::SIGXCPU {
+                "cpu-limit".to_string()
+            } else {
+                format!("signal-{}", sig)
+            }
+        } else {
+            format!("exit-{}", output.status.code().unwrap_or(-1))
+        })
+    };
+    let _ = std::fs::remove_file(&case_path);
+    let _ = std::fs::remove_file(&out_path);
+    let _ = std::fs::remove_file(&crumb_path);
+    let tail: String = stderr.chars().rev().take(600).collect::<String>().chars().rev().collect();
+    Some(ChildResult { out, died, crumb, stderr_tail: tail })
+}
+
+/// Runs items in a child; merges what the child observed; a child that dies
+/// is narrowed down to the item named in its breadcrumb, which is then re-run
+/// alone twice: the same death twice is the violation.
+fn isolated(ctx: &mut Ctx, tag: &str, items: Vec<Item>) {
+    let Some(res) = run_child(ctx, tag, &items) else {
+        ctx.notes.push("C04: could not spawn a child process for the isolated class".into());
+        return;
+    };
+    if let Some(out) = &res.out {
+        merge_child(ctx, out);
+    }
+    let Some(how) = res.died else { return };
+    // which item / entry point?
+    let field = |key: &str| -> Option<String> {
+        res.crumb.split_whitespace().find_map(|w| w.strip_prefix(key).map(|s| s.to_string()))
+    };
+    let idx = field("item=").and_then(|s| s.parse::<usize>().ok());
+    let ep = field("ep=").and_then(|s| Ep::from_name(&s));
+    let (Some(idx), Some(ep)) = (idx.filter(|i| *i < items.len()), ep) else {
+        ctx.notes.push(format!("C04: child for {} died ({}) without a usable breadcrumb: {}", tag, how, res.stderr_tail));
+        return;
+    };
+    let (_, data, what) = &items[idx];
+    let culprit = vec![(vec![ep], data.clone(), what.clone())];
+    let mut same = 0;
+    for k in 0..2 {
+        if let Some(r) = run_child(ctx, &format!("{}-confirm{}", tag, k), &culprit) {
+            if r.died.as_deref() == Some(how.as_str()) {
+                same += 1;
+            }
+        }
+    }
+    if same == 2 {
+        ctx.violation(
+            &format!("C04:process-died:{}:{}", how, ep.name()),
+            &format!("the process decoding this input through {} dies ({}); confirmed by two isolated re-runs", ep.name(), how),
+            json!({"ep": ep.name(), "what": what, "len": data.len(), "fnv64": format!("{:016x}", fnv64(data)),
+                   "stderr_tail": res.stderr_tail,
+                   "replay_case": {"ep": ep.name(), "hex": if data.len() <= 300_000 { hex(data) } else { String::new() }, "isolate": true}}),
+        );
+    } else {
+        ctx.notes.push(format!("C04: child died once ({}) on {} / {} but not on isolated re-runs (not a verdict)", how, ep.name(), what));
+    }
+    // the rest of the batch still deserves a run: the remaining entry points
+    // of the culprit item and everything after it
+    let mut rest: Vec<Item> = Vec::new();
+    let after: Vec<Ep> = items[idx].0.iter().copied().skip_while(|e| *e != ep).skip(1).collect();
+    if !after.is_empty() {
+        rest.push((after, data.clone(), what.clone()));
+    }
+    rest.extend(items[idx + 1..].iter().cloned());
+    if !rest.is_empty() {
+        isolated(ctx, &format!("{}r", tag), rest);
+    }
+}
+
+fn merge_child(ctx: &mut Ctx, out: &Value) {
+    ctx.evals(out["evaluations"].as_u64().unwrap_or(0));
+    if let Some(v) = out["violations"].as_array() {
+        for x in v {
+            ctx.violation(x["sig"].as_str().unwrap_or("C04:child"), x["desc"].as_str().unwrap_or(""), x["detail"].clone());
+        }
+    }
+    if let Some(o) = out["observations"].as_object() {
+        for (k, v) in o {
+            let n = v.as_u64().unwrap_or(0);
+            if let Some(name) = k.strip_prefix("max:") {
+                ctx.obs_max(name, n);
+            } else {
+                ctx.obs(k, n);
+            }
+        }
+    }
+    if let Some(s) = out["signatures"].as_array() {
+        for h in s {
+            if let Some(h) = h.as_str().and_then(|h| u64::from_str_radix(h, 16).ok()) {
+                ctx.sig_hash(h);
+            }
+        }
+    }
+    ctx.h1_chains += out["h1_chains"].as_u64().unwrap_or(0);
+    if let Some(list) = out["samples"].as_array() {
+        for smp in list {
+            if let Some(kind) = smp["kind"].as_str() {
+                ctx.sample(kind, || smp["case"].clone());
+            }
+        }
+    }
+}
+
+fn set_limits(cpu_s: u64, as_bytes: Option<u64>) {
+    unsafe {
+        let lim = libc::rlimit { rlim_cur: cpu_s, rlim_max: cpu_s + 5 };
+        libc::setrlimit(libc::RLIMIT_CPU, &lim);
+        if let Some(b) = as_bytes {
+            let lim = libc::rlimit { rlim_cur: b, rlim_max: b };
+            libc::setrlimit(libc::RLIMIT_AS, &lim);
+        }
+    }
+}
+
+//------------ run -----------------------------------------------------------
 
 pub fn run(ctx: &mut Ctx) {
-    ctx.notes.push("C04: monitor not built yet".into());
+    let miri = ctx.is_miri();
+    let native = ctx.is_native();
+    let crypto = !ctx.no_ffi();
+    install_hook();
+    let fixed = if crypto { Fixed::with_crypto() } else { Fixed::without_crypto() };
+    if crypto && fixed.issuer.is_none() {
+        ctx.notes.push("C04: the fixed issuer could not be built; validate*/process were not driven".into());
+    }
+    let mut mon = Mon {
+        opts: Opts { crypto, fixed: &fixed, light: miri },
+        native,
+        miri,
+        evals: 0,
+        accepted: 0,
+        rejected: 0,
+        trivial: 0,
+        validated: 0,
+        panics: 0,
+        h1_bad: 0,
+        since_drain: 0,
+        max_heap_permille: 0,
+        max_cpu_permille: 0,
+        slow: 0,
+        spin_base: if native { calibrate() } else { 1 },
+        crumb_every: 1,
+        crumb: Crumb::new(ctx),
+    };
+
+    // ---- literal cases (replay, child batches, fuzz artifacts)
+    if let Some(case) = ctx.case.clone() {
+        run_case(ctx, &mut mon, &case);
+        mon.flush(ctx);
+        return;
+    }
+
+    if native {
+        // a runaway loop / allocation must kill the shard (driver reports the
+        // breadcrumb) instead of hanging it or the machine
+        start_watchdog();
+        set_limits(if ctx.tier == Tier::Thorough { 3400 } else { 1500 }, Some(12 << 30));
+    }
+
+    // ---- corpus
+    if miri {
+        run_miri(ctx, &mut mon);
+        mon.flush(ctx);
+        return;
+    }
+    let mut seeds = captured_seeds(usize::MAX);
+    let n_captured = seeds.len();
+    seeds.extend(built_seeds(crypto, usize::MAX));
+    let n_built = seeds.len() - n_captured;
+    let parts = discover(&seeds, &fixed, 6);
+    let n_parts = parts.len();
+    {
+        // leave the discovered parts for the Miri stage (which cannot afford the discovery)
+        let file = build_dir().join("c04-seeds-v4").join("parts.json");
+        if !file.exists() && file.parent().map(|p| p.exists()).unwrap_or(false) {
+            let items: Vec<Value> = parts
+                .iter()
+                .filter(|s| s.data.len() <= 600)
+                .map(|s| json!({"name": s.name, "hex": hex(&s.data), "home": s.home.iter().map(|e| e.name()).collect::<Vec<_>>()}))
+                .collect();
+            let tmp = file.with_extension(format!("tmp{}", std::process::id()));
+            if std::fs::write(&tmp, serde_json::to_string(&items).unwrap_or_default()).is_ok() {
+                let _ = std::fs::rename(&tmp, &file);
+            }
+        }
+    }
+    seeds.extend(parts);
+    if seeds.is_empty() {
+        ctx.notes.push("C04: no seed corpus found (test-data missing?)".into());
+        return;
+    }
+    if n_built == 0 {
+        ctx.notes.push("C04: no library-built seed objects available in this stage (cache empty and signing impossible)".into());
+    }
+    ctx.obs_max("seeds_captured_files", n_captured as u64);
+    ctx.obs_max("seeds_built_objects", n_built as u64);
+    ctx.obs_max("seeds_discovered_substructures", n_parts as u64);
+    let donors: Vec<Vec<T>> = seeds.iter().filter(|s| s.data.len() <= 20_000).filter_map(|s| s.forest.clone()).collect();
+    let mut oids: Vec<Vec<u8>> = Vec::new();
+    for d in &donors {
+        for i in m::find_all(d, &|t| t.tag == 0x06) {
+            if let Some(T { body: m::Body::Leaf(b), .. }) = m::node(d, i) {
+                if !oids.contains(b) {
+                    oids.push(b.clone());
+                }
+            }
+        }
+    }
+    let pools = Pools { donors: &donors, oids: &oids };
+
+    // ---- 1. every seed unchanged through every entry point
+    let mut idx = 0u64;
+    for s in &seeds {
+        for ep in ALL_EPS {
+            idx += 1;
+            if !ctx.mine(idx) {
+                continue;
+            }
+            if s.data.len() > 50_000 && !s.home.contains(ep) {
+                continue;
+            }
+            mon.eval(ctx, &Case { ep: *ep, data: &s.data, mutator: "unchanged", seed: &s.name });
+        }
+    }
+
+    // ---- 2. truncation at every TLV boundary
+    {
+        let asan = ctx.stage == Stage::Asan;
+        for s in &seeds {
+            let Some(f) = &s.forest else { continue };
+            if s.data.len() > 12_000 {
+                continue;
+            }
+            let cuts = m::boundaries(f);
+            for cut in cuts {
+                if cut >= s.data.len() {
+                    continue;
+                }
+                idx += 1;
+                if !ctx.mine(idx) || (asan && idx % 4 != 0) {
+                    continue;
+                }
+                let data = &s.data[..cut];
+                for ep in &s.home {
+                    mon.eval(ctx, &Case { ep: *ep, data, mutator: "trunc-boundary", seed: &s.name });
+                }
+            }
+        }
+    }
+
+    // ---- 3. deep nesting, each input in a child process (native only)
+    if native {
+        let depths: &[usize] = if ctx.tier == Tier::Thorough { &[100, 1000, 5000, 10_000, 30_000] } else { &[100, 1000, 10_000] };
+        let mut batches: Vec<(String, Vec<Item>)> = Vec::new();
+        // one representative seed per distinct home set
+        let mut reps: Vec<&Seed> = Vec::new();
+        for s in seeds.iter().filter(|s| s.forest.is_some() && s.data.len() <= 6_000 && !s.home.is_empty()) {
+            if !reps.iter().any(|r| r.home == s.home) {
+                reps.push(s);
+            }
+        }
+        for &d in depths {
+            let shapes: Vec<Item> = vec![
+                (ALL_EPS.to_vec(), m::nest(0x30, d, false, &[0x05, 0x00]), format!("sequence-definite x{}", d)),
+                (ALL_EPS.to_vec(), m::nest(0x30, d, true, &[0x05, 0x00]), format!("sequence-indefinite x{}", d)),
+                (ALL_EPS.to_vec(), m::nest(0x31, d, true, &[]), format!("set-indefinite x{}", d)),
+                (ALL_EPS.to_vec(), m::nest(0xA0, d, false, &[0x02, 0x01, 0x03]), format!("ctx0-definite x{}", d)),
+                (ALL_EPS.to_vec(), m::nest(0x24, d, true, &[0x04, 0x02, 0x30, 0x00]), format!("octet-string-constructed-indefinite x{}", d)),
+                (ALL_EPS.to_vec(), m::nest(0x24, d, false, &[0x04, 0x02, 0x30, 0x00]), format!("octet-string-constructed-definite x{}", d)),
+                (ALL_EPS.to_vec(), m::nest(0x23, d, true, &[0x03, 0x01, 0x00]), format!("bit-string-constructed x{}", d)),
+            ];
+            batches.push((format!("nest{}", d), shapes));
+            // the same towers planted inside real objects (content, extension, name, resources)
+            let mut planted: Vec<Item> = Vec::new();
+            let mut rng = Rng::derive(ctx.seed, &["C04", "plant"], &[d as u64]);
+            for s in &reps {
+                let f = s.forest.as_ref().unwrap();
+                let total = m::count_all(f);
+                for k in 0..4 {
+                    let mut g = f.clone();
+                    let at = rng.usize_below(total);
+                    let (tag, indef, core): (u8, bool, Vec<u8>) = match k {
+                        0 => (0x30, true, vec![0x05, 0x00]),
+                        1 => (0x24, true, vec![0x04, 0x00]),
+                        2 => (0x24, false, vec![0x04, 0x02, 0x30, 0x00]),
+                        _ => (0x30, false, vec![0x02, 0x01, 0x00]),
+                    };
+                    let tower = m::nest(tag, d, indef, &core);
+                    if let Some(n) = m::node_mut(&mut g, at) {
+                        // a pre-serialised tower emitted verbatim in place of this node
+                        *n = T { tag: tower[0], len: m::LenForm::Raw(Vec::new()), body: m::Body::Leaf(tower[1..].to_vec()) };
+                    }
+                    planted.push((
+                        s.home.clone(),
+                        m::to_bytes(&g),
+                        format!("tower-planted(tag {:#x}, indefinite={}) x{} at node {} of {}", tag, indef, d, at, s.name),
+                    ));
+                }
+            }
+            batches.push((format!("plant{}", d), planted));
+        }
+        for (i, (tag, items)) in batches.into_iter().enumerate() {
+            if ctx.mine(i as u64) {
+                ctx.sig(&format!("isolated|{}", tag));
+                isolated(ctx, &tag, items);
+            }
+        }
+    }
+
+    // ---- 4. random mutation
+    let mut mutants = ctx.stage_budget((800_000, 10_000_000), 200_000, 0, 0);
+    if let Some(n) = std::env::var("C04_MUTANTS").ok().and_then(|v| v.parse::<u64>().ok()) {
+        mutants = n; // experiments only; never set by the driver
+    }
+    let mut rng = ctx.rng("mutate");
+    // seed weights: favour small objects (time per mutant), never starve big ones
+    let weights: Vec<u64> = seeds
+        .iter()
+        .map(|s| {
+            let base: u64 = if s.data.len() > 100_000 {
+                1
+            } else if s.data.len() > 8_000 {
+                6
+            } else {
+                40
+            };
+            if s.home.is_empty() {
+                base / 4 + 1
+            } else {
+                base
+            }
+        })
+        .collect();
+    let wsum: u64 = weights.iter().sum();
+    let mut produced = 0u64;
+    let mut mutator_names = String::new();
+    let signer = if crypto { Some(crate::keys::PoolSigner::new(3)) } else { None };
+    let resign_one_in: u64 = if ctx.tier == Tier::Thorough { 16 } else { 8 };
+    let mut resigned = 0u64;
+    while produced < mutants {
+        produced += 1;
+        // pick a seed
+        let mut w = rng.below(wsum);
+        let mut si = 0;
+        for (i, x) in weights.iter().enumerate() {
+            if w < *x {
+                si = i;
+                break;
+            }
+            w -= *x;
+        }
+        let s = &seeds[si];
+        mutator_names.clear();
+        let data: Vec<u8> = if let (true, Some(pool), Some(f0)) =
+            (s.plan != Plan::None && rng.below(resign_one_in) == 0, signer.as_ref(), s.forest.as_ref())
+        {
+            // mutate inside a signed region, then recompute the signatures so the
+            // mutant gets past the signature checks of validate*/process
+            let mut f = f0.clone();
+            let region: Option<Vec<usize>> = match s.plan {
+                Plan::X509(_) => Some(vec![0, 0]),
+                Plan::Cms { .. } => m::cms_layout(&f).map(|l| {
+                    let mut choices: Vec<Vec<usize>> = vec![l.econtent.clone(), { let mut c = l.cert.clone(); c.push(0); c }];
+                    if let Some(mut c) = l.crl.clone() {
+                        c.push(0);
+                        choices.push(c.clone());
+                        choices.push(c);
+                    }
+                    choices[rng.usize_below(choices.len())].clone()
+                }),
+                Plan::None => None,
+            };
+            mutator_names.push_str("resign");
+            if let Some(path) = region {
+                if let Some(mut sub) = m::at(&f, &path).and_then(|t| t.children().cloned()) {
+                    let k = 1 + rng.usize_below(2);
+                    let mut applied = 0;
+                    let mut tries = 0;
+                    while applied < k && tries < 12 && !sub.is_empty() {
+                        tries += 1;
+                        let name = *rng.pick(m::TREE_MUTATORS);
+                        if m::mutate_tree(&mut sub, name, &mut rng, &pools) {
+                            mutator_names.push(if applied == 0 { ':' } else { '+' });
+                            mutator_names.push_str(name);
+                            applied += 1;
+                        }
+                    }
+                    if let Some(c) = m::at_mut(&mut f, &path).and_then(|t| t.children_mut()) {
+                        *c = sub;
+                    }
+                }
+            }
+            let sha = |d: &[u8]| crate::keys::sha256(d);
+            match s.plan {
+                Plan::X509(k) => {
+                    m::resign_x509(&mut f, &[0], &|d| pool.key(k).sign_raw(d));
+                }
+                Plan::Cms { ee, issuer } => {
+                    m::resign_cms(&mut f, &sha, &|d| pool.key(ee).sign_raw(d), &|d| pool.key(issuer).sign_raw(d));
+                }
+                Plan::None => {}
+            }
+            resigned += 1;
+            m::to_bytes(&f)
+        } else if s.text {
+            let mut d = s.data.clone();
+            let k = 1 + rng.usize_below(3);
+            for i in 0..k {
+                if i > 0 {
+                    mutator_names.push('+');
+                }
+                mutator_names.push_str(mutate_text(&mut d, &mut rng));
+            }
+            d
+        } else {
+            let class = rng.below(100);
+            if class < 3 {
+                mutator_names.push_str("random");
+                let n = *rng.pick(&[0usize, 1, 2, 3, 8, 64, 300, 2000]);
+                let mut d = rng.bytes(n);
+                if rng.bool() && !d.is_empty() {
+                    d[0] = 0x30;
+                }
+                d
+            } else if class < 8 {
+                mutator_names.push_str("trunc-random");
+                let mut d = s.data.clone();
+                let p = rng.usize_below(d.len().max(1));
+                d.truncate(p);
+                d
+            } else if class < 20 || s.forest.is_none() {
+                let mut d = s.data.clone();
+                let k = 1 + rng.usize_below(2);
+                for i in 0..k {
+                    let name = *rng.pick(m::RAW_MUTATORS);
+                    if i > 0 {
+                        mutator_names.push('+');
+                    }
+                    mutator_names.push_str(name);
+                    m::mutate_raw(&mut d, name, &mut rng);
+                }
+                d
+            } else {
+                let mut f = s.forest.clone().unwrap();
+                let k = match rng.below(10) {
+                    0..=6 => 1,
+                    7 | 8 => 2,
+                    _ => 3,
+                };
+                let mut applied = 0;
+                let mut tries = 0;
+                while applied < k && tries < 12 {
+                    tries += 1;
+                    let name = *rng.pick(m::TREE_MUTATORS);
+                    if m::mutate_tree(&mut f, name, &mut rng, &pools) {
+                        if applied > 0 {
+                            mutator_names.push('+');
+                        }
+                        mutator_names.push_str(name);
+                        applied += 1;
+                    }
+                }
+                if applied == 0 {
+                    mutator_names.push_str("unchanged");
+                }
+                m::to_bytes(&f)
+            }
+        };
+        if data.len() > 2_000_000 {
+            continue;
+        }
+        // sig classes are per single mutator; stacked ones are classed by the first
+        let class_name: &str = mutator_names.split('+').next().unwrap_or("unchanged");
+        let stacked = mutator_names.contains('+');
+        let label = if stacked { format!("{}+", class_name) } else { class_name.to_string() };
+        for ep in &s.home {
+            mon.eval(ctx, &Case { ep: *ep, data: &data, mutator: &label, seed: &s.name });
+        }
+        if s.home.is_empty() || rng.chance(1, 4) {
+            let ep = *rng.pick(ALL_EPS);
+            if !s.home.contains(&ep) {
+                mon.eval(ctx, &Case { ep, data: &data, mutator: &label, seed: &s.name });
+            }
+        }
+        if produced % 4096 == 0 {
+            mon.flush(ctx);
+        }
+    }
+    ctx.obs("mutants_generated", produced);
+    ctx.obs("mutants_resigned_with_pool_keys", resigned);
+    mon.flush(ctx);
+}
+
+//------------ Miri ----------------------------------------------------------
+
+/// Miri interprets roughly 10^4 times slower than native code here (seconds
+/// per certificate), so its stage works on the small sub-structures the native
+/// stage discovered (resource extensions, names, times, serials, keys, CRL
+/// bodies; cached in `.build/c04-seeds-v4/parts.json`), a few small captured
+/// files, and hand-assembled values, with Debug/serde formatting skipped and
+/// nothing that enters aws-lc. Every decoder reached here is pure parsing.
+fn run_miri(ctx: &mut Ctx, mon: &mut Mon) {
+    use crate::der;
+    let mut seeds: Vec<Seed> = Vec::new();
+    let mk = |name: &str, data: Vec<u8>, home: Vec<Ep>| Seed { name: name.into(), forest: m::parse(&data), data, home, text: false, plan: Plan::None };
+    // hand-assembled (independent DER writer)
+    let asres = der::seq(&[&der::tlv(0xA0, &der::seq(&[&der::uint(64496), &der::seq(&[&der::uint(65000), &der::uint(65100)]), &der::seq(&[&der::uint(4_200_000_000), &der::uint(u32::MAX as u128)])]))]);
+    seeds.push(mk("hand/asres", asres, vec![Ep::AsResDer, Ep::AsResBer]));
+    let v4 = der::seq(&[&der::octets(&[0, 1]), &der::seq(&[&der::bitstring(0, &[10]), &der::seq(&[&der::bitstring(0, &[192, 168, 0]), &der::bitstring(0, &[192, 168, 5])])])]);
+    let v6 = der::seq(&[&der::octets(&[0, 2]), &der::seq(&[&der::bitstring(0, &[0x20, 0x01, 0x0d, 0xb8])])]);
+    seeds.push(mk("hand/ipres", der::seq(&[&v4, &v6]), vec![Ep::IpResDer, Ep::IpResBer]));
+    seeds.push(mk("hand/utctime", der::utctime("250601120000Z"), vec![Ep::Time]));
+    seeds.push(mk("hand/gentime", der::gentime("20510101000000Z"), vec![Ep::Time]));
+    seeds.push(mk("hand/serial", der::uint(0x1234_5678_9ABC_DEF0), vec![Ep::Serial]));
+    let name = der::seq(&[&der::set_of_sorted(&[der::seq(&[&der::oid(&[2, 5, 4, 3]), &der::tlv(der::T_PRINTABLE, b"c04")])])]);
+    seeds.push(mk("hand/name", name.clone(), vec![Ep::Name]));
+    let entry = |n: u128, t: &str| der::seq(&[&der::uint(n), &der::utctime(t)]);
+    let tbs = der::seq(&[
+        &der::uint(1),
+        &der::seq(&[&der::oid(der::OID_SHA256_WITH_RSA), &der::null()]),
+        &name,
+        &der::utctime("250101000000Z"),
+        &der::utctime("270101000000Z"),
+        &der::seq(&[&entry(3, "240501000000Z"), &entry(0x80, "240601000000Z")]),
+        &der::tlv(0xA0, &der::seq(&[
+            &der::seq(&[&der::oid(&[2, 5, 29, 35]), &der::octets(&der::seq(&[&der::tlv(0x80, &[7u8; 20])]))]),
+            &der::seq(&[&der::oid(&[2, 5, 29, 20]), &der::octets(&der::uint(9))]),
+        ])),
+    ]);
+    seeds.push(mk("hand/crltbs", tbs, vec![Ep::CrlTbsDer, Ep::CrlTbsBer]));
+    let fh = |n: &[u8]| der::seq(&[&der::ia5(n), &der::bitstring(0, &[0xAB; 32])]);
+    let mft = der::seq(&[
+        &der::uint(258),
+        &der::gentime("20250101000000Z"),
+        &der::gentime("20270101000000Z"),
+        &der::oid(der::OID_SHA256),
+        &der::seq(&[&fh(b"ca.crl"), &fh(b"AS64496-roa_1.roa")]),
+    ]);
+    seeds.push(mk("hand/mftcontent", mft, vec![Ep::MftContentDer, Ep::MftContentBer]));
+    // parts discovered by the native stage
+    let parts_file = build_dir().join("c04-seeds-v4").join("parts.json");
+    let mut n_parts = 0u64;
+    if let Ok(text) = std::fs::read_to_string(&parts_file) {
+        if let Ok(Value::Array(items)) = serde_json::from_str::<Value>(&text) {
+            for it in items {
+                let data = unhex(it["hex"].as_str().unwrap_or(""));
+                if data.is_empty() || data.len() > 400 {
+                    continue;
+                }
+                let home: Vec<Ep> = it["home"].as_array().map(|a| a.iter().filter_map(|x| Ep::from_name(x.as_str().unwrap_or(""))).collect()).unwrap_or_default();
+                // the scalar decoders are covered by the hand-made seeds
+                if home.iter().any(|e| matches!(e, Ep::Time | Ep::Serial | Ep::Name)) && n_parts > 0 {
+                    continue;
+                }
+                seeds.push(mk(it["name"].as_str().unwrap_or("part"), data, home));
+                n_parts += 1;
+            }
+        }
+    } else {
+        ctx.notes.push("C04/miri: no cached sub-structures from the native stage; hand-assembled seeds only".into());
+    }
+    // a few small captured files
+    for (file, home) in [
+        ("test-data/crypto/rsa-key.public.der", vec![Ep::PubKey]),
+        ("test-data/ca/router-csr.der", vec![Ep::BgpsecCsr]),
+        ("test-data/repository/ta.crl", vec![Ep::Crl]),
+        ("test-data/repository/ripe.tal", vec![Ep::Tal]),
+    ] {
+        if let Ok(data) = std::fs::read(repo_dir().join(file)) {
+            let text = file.ends_with(".tal");
+            seeds.push(Seed { name: file.into(), forest: if text { None } else { m::parse(&data) }, data, home, text, plan: Plan::None });
+        }
+    }
+    ctx.obs_max("seeds_discovered_substructures", n_parts);
+    ctx.obs_max("seeds_hand_assembled", 9);
+    let donors: Vec<Vec<T>> = seeds.iter().filter_map(|s| s.forest.clone()).collect();
+    let oids: Vec<Vec<u8>> = vec![vec![0x55, 0x04, 0x03], vec![0x55, 0x1D, 0x14]];
+    let pools = Pools { donors: &donors, oids: &oids };
+    let mut idx = 0u64;
+    for s in &seeds {
+        for ep in &s.home {
+            idx += 1;
+            if ctx.mine(idx) {
+                mon.eval(ctx, &Case { ep: *ep, data: &s.data, mutator: "unchanged", seed: &s.name });
+            }
+        }
+    }
+    let mut mutants = ctx.stage_budget((0, 0), 0, 240, 0);
+    if let Some(n) = std::env::var("C04_MUTANTS").ok().and_then(|v| v.parse::<u64>().ok()) {
+        mutants = n;
+    }
+    let mut rng = ctx.rng("mutate-miri");
+    for _ in 0..mutants {
+        let s = &seeds[rng.usize_below(seeds.len())];
+        let (data, label): (Vec<u8>, String) = if s.text {
+            let mut d = s.data.clone();
+            let l = mutate_text(&mut d, &mut rng);
+            (d, l.to_string())
+        } else if let (Some(f), true) = (&s.forest, rng.chance(4, 5)) {
+            let mut g = f.clone();
+            let mut label = String::from("unchanged");
+            for _ in 0..8 {
+                let name = *rng.pick(m::TREE_MUTATORS);
+                if m::mutate_tree(&mut g, name, &mut rng, &pools) {
+                    label = name.to_string();
+                    break;
+                }
+            }
+            (m::to_bytes(&g), label)
+        } else {
+            let mut d = s.data.clone();
+            let name = *rng.pick(m::RAW_MUTATORS);
+            m::mutate_raw(&mut d, name, &mut rng);
+            (d, name.to_string())
+        };
+        let ep = if s.home.is_empty() { *rng.pick(ALL_EPS) } else { *rng.pick(&s.home) };
+        mon.eval(ctx, &Case { ep, data: &data, mutator: &label, seed: &s.name });
+    }
+    ctx.obs("mutants_generated", mutants);
+}
+
+//------------ literal cases --------------------------------------------------
+
+/// Writes the structured corpus for the libFuzzer targets: every seed under
+/// each of its home entry points (selector byte first), plus a handful of
+/// tree mutants per seed so that the fuzzer starts from BER forms, boundary
+/// integers and odd times as well.
+fn write_corpus(ctx: &mut Ctx, dir: &str, crypto: bool, fixed: &Fixed) {
+    use self::c04_eval::{FUZZ_CA, FUZZ_REPO, FUZZ_RESOURCES, FUZZ_TEXT};
+    let groups: [(&str, &[Ep]); 4] = [("c04_repo", FUZZ_REPO), ("c04_ca", FUZZ_CA), ("c04_resources", FUZZ_RESOURCES), ("c04_text", FUZZ_TEXT)];
+    let mut seeds = captured_seeds(usize::MAX);
+    seeds.extend(built_seeds(crypto, usize::MAX));
+    let parts = discover(&seeds, fixed, 6);
+    seeds.extend(parts);
+    let donors: Vec<Vec<T>> = seeds.iter().filter(|s| s.data.len() <= 20_000).filter_map(|s| s.forest.clone()).collect();
+    let oids: Vec<Vec<u8>> = Vec::new();
+    let pools = Pools { donors: &donors, oids: &oids };
+    let mut rng = ctx.rng("corpus");
+    let mut written = 0u64;
+    for (gname, group) in groups {
+        let gdir = PathBuf::from(dir).join(gname);
+        let _ = std::fs::create_dir_all(&gdir);
+        for s in &seeds {
+            if s.data.len() > 60_000 {
+                continue;
+            }
+            for ep in &s.home {
+                let Some(sel) = group.iter().position(|e| e == ep) else { continue };
+                let mut variants: Vec<Vec<u8>> = vec![s.data.clone()];
+                if let Some(f) = &s.forest {
+                    for _ in 0..3 {
+                        let mut g = f.clone();
+                        let name = *rng.pick(m::TREE_MUTATORS);
+                        if m::mutate_tree(&mut g, name, &mut rng, &pools) {
+                            variants.push(m::to_bytes(&g));
+                        }
+                    }
+                }
+                for v in variants {
+                    let mut bytes = vec![sel as u8];
+                    bytes.extend_from_slice(&v);
+                    let file = gdir.join(format!("{:016x}", fnv64(&bytes)));
+                    if std::fs::write(file, &bytes).is_ok() {
+                        written += 1;
+                    }
+                }
+            }
+        }
+    }
+    ctx.obs("fuzz_corpus_files_written", written);
+    ctx.evals(written);
+    ctx.sig("corpus-written");
+    ctx.sig("corpus");
+}
+
+fn run_case(ctx: &mut Ctx, mon: &mut Mon, case: &Value) {
+    if let Some(dir) = case["write_corpus"].as_str() {
+        let crypto = mon.opts.crypto;
+        write_corpus(ctx, dir, crypto, mon.opts.fixed);
+        return;
+    }
+    // batch handed down by a parent shard
+    if case["child"].as_bool() == Some(true) {
+        set_limits(300, Some(6 << 30));
+        let items = case["items"].as_array().cloned().unwrap_or_default();
+        mon.crumb_every = u32::MAX; // item index + entry point are the breadcrumb here
+        // evaluated on a thread with the default 2 MiB stack: that is what a
+        // user of the library gets on any spawned thread / async worker
+        std::thread::scope(|sc| {
+            let h = std::thread::Builder::new().stack_size(2 << 20).spawn_scoped(sc, || {
+                start_watchdog();
+                for (i, it) in items.iter().enumerate() {
+                    let data = unhex(it["hex"].as_str().unwrap_or(""));
+                    let what = it["what"].as_str().unwrap_or("isolated").to_string();
+                    let label = what.split(" x").next().unwrap_or("isolated").split('(').next().unwrap_or("isolated").trim().to_string();
+                    let eps: Vec<Ep> = it["eps"]
+                        .as_array()
+                        .map(|a| a.iter().filter_map(|x| Ep::from_name(x.as_str().unwrap_or(""))).collect())
+                        .unwrap_or_default();
+                    for ep in eps {
+                        let t = format!("item={} ep={} what={}", i, ep.name(), what.replace(' ', "_"));
+                        mon.crumb.put(&[t.as_bytes()]);
+                        mon.eval(ctx, &Case { ep, data: &data, mutator: &format!("nest:{}", label), seed: "isolated" });
+                    }
+                }
+            });
+            if let Ok(h) = h {
+                let _ = h.join();
+            }
+        });
+        return;
+    }
+    // libFuzzer artifact: first byte selects the entry point inside the target's group
+    let (ep, data) = if let Some(target) = case["fuzz_target"].as_str() {
+        let raw = unhex(case["hex"].as_str().unwrap_or(""));
+        let group = match target {
+            "repo" => self::c04_eval::FUZZ_REPO,
+            "ca" => self::c04_eval::FUZZ_CA,
+            "resources" => self::c04_eval::FUZZ_RESOURCES,
+            _ => self::c04_eval::FUZZ_TEXT,
+        };
+        match raw.split_first() {
+            Some((sel, body)) => (group[*sel as usize % group.len()], body.to_vec()),
+            None => return,
+        }
+    } else {
+        let Some(ep) = Ep::from_name(case["ep"].as_str().unwrap_or("")) else {
+            ctx.notes.push("C04: case without a known entry point".into());
+            return;
+        };
+        (ep, unhex(case["hex"].as_str().unwrap_or("")))
+    };
+    if case["isolate"].as_bool() == Some(true) {
+        isolated(ctx, "replay", vec![(vec![ep], data, "replayed case".into())]);
+        return;
+    }
+    mon.eval(ctx, &Case { ep, data: &data, mutator: "replay", seed: "case-file" });
+    ctx.sig("replay");
+    ctx.sig(&format!("replay|{}", ep.name()));
 }
